@@ -159,6 +159,14 @@ func (c C12) Run(t *tape.Tape, opt core.RunOpt) (res core.Result) {
 	cfg := sched.DrawConfig(t)
 	cfg.MaxSteps = 400000
 	s := sched.New(t, cfg)
+	if t.Bool(1, 5) {
+		// an application that lowered the library's depth limit (deep parts of a
+		// response are cut off - the same way alone and among other requests)
+		oldDepth := ggql.MaxResolveDepth
+		ggql.MaxResolveDepth = 3 + t.Draw(4)
+		defer func() { ggql.MaxResolveDepth = oldDepth }()
+		res.Count("probe_lowered_depth_limit", 1)
+	}
 	strat := []workload.Strategy{workload.StratReflect, workload.StratReflect, workload.StratMixed, workload.StratInterface, workload.StratAny}[t.Draw(5)]
 	q := workload.GenZoo(t)
 	if strat == workload.StratMixed {
@@ -183,7 +191,7 @@ func (c C12) Run(t *tape.Tape, opt core.RunOpt) (res core.Result) {
 	// the same first-use windows), the other half mixes in the special ones
 	extras := t.Bool(1, 2)
 	for i := range pool {
-		pool[i] = workload.GenRequest(t, workload.ReqOpt{Strat: strat, MultiOp: !pathMode && t.Bool(1, 4), Introspection: !pathMode, NoUnion: noUnion, Ghost: extras && t.Bool(1, 2), Relay: extras && t.Bool(1, 2), Pick: extras && t.Bool(1, 2), Nick: extras && t.Bool(1, 2), Span: extras && t.Bool(1, 2), Blob: extras && t.Bool(1, 2), Call: extras && t.Bool(1, 2), Tune: extras && t.Bool(1, 2),
+		pool[i] = workload.GenRequest(t, workload.ReqOpt{Strat: strat, MultiOp: !pathMode && t.Bool(1, 4), Introspection: !pathMode, NoUnion: noUnion, Ghost: extras && t.Bool(1, 2), Relay: extras && t.Bool(1, 2), Pick: extras && t.Bool(1, 2), Nick: extras && t.Bool(1, 2), Span: extras && t.Bool(1, 2), Blob: extras && t.Bool(1, 2), Call: extras && t.Bool(1, 2), Tune: extras && t.Bool(1, 2), Stamps: extras && t.Bool(1, 2),
 			VarInLiteral: strat != workload.StratReflect, ShuffleArgs: true, MaxDepth: 2 + t.Draw(3), PathMode: pathMode})
 	}
 	if strat == workload.StratReflect && t.Bool(1, 8) {
